@@ -355,10 +355,47 @@ theorem inv_run (sched : List Choice) {s : State} (h : Inv s) : Inv (run s sched
 
 theorem inv_reach (sched : List Choice) : Inv (run init sched) := inv_run sched inv_init
 
-/-! ### asyncio variant: every step is a block of thread steps -/
+/-! ### steps of the consumer's environment -/
 
 theorem run_append (s : State) (a b : List Choice) : run s (a ++ b) = run (run s a) b := by
   simp [run, List.foldl_append]
+
+/-- a step of the environment of the consumer: producer or connection-handler thread -/
+def isEnv : Choice → Bool
+  | .prod | .conn _ => true
+  | _ => false
+
+theorem env_run (env : List Choice) (henv : ∀ c ∈ env, isEnv c = true) (s : State) :
+    (run s env).cpc = s.cpc ∧ (run s env).log = s.log ∧ ∃ extra, (run s env).buf = s.buf ++ extra := by
+  induction env generalizing s with
+  | nil => exact ⟨rfl, rfl, [], by simp [run]⟩
+  | cons c cs ih =>
+    have hc := henv c (by simp)
+    obtain ⟨h1, h2, ex, h3⟩ := ih (fun c' hc' => henv c' (by simp [hc'])) (step s c)
+    have hs : (step s c).cpc = s.cpc ∧ (step s c).log = s.log ∧ ∃ e, (step s c).buf = s.buf ++ e := by
+      cases c with
+      | prod =>
+        simp only [step, prodStep]; split
+        · exact ⟨rfl, rfl, _, rfl⟩
+        · exact ⟨rfl, rfl, [], by simp [setInput]⟩
+      | conn k =>
+        simp only [step, connStep]; split
+        · cases k <;> exact ⟨rfl, rfl, [], by simp⟩
+        · exact ⟨rfl, rfl, [], by simp [setConn]⟩
+        · exact ⟨rfl, rfl, [], by simp [setConn]⟩
+      | cons ok => simp [isEnv] at hc
+      | timeout => simp [isEnv] at hc
+      | start op => simp [isEnv] at hc
+    obtain ⟨g1, g2, e0, g3⟩ := hs
+    refine ⟨?_, ?_, e0 ++ ex, ?_⟩
+    · show (run (step s c) cs).cpc = s.cpc
+      rw [h1, g1]
+    · show (run (step s c) cs).log = s.log
+      rw [h2, g2]
+    · show (run (step s c) cs).buf = s.buf ++ (e0 ++ ex)
+      rw [h3, g3, List.append_assoc]
+
+/-! ### asyncio variant: every step is a block of thread steps -/
 
 theorem consRun_is_run (fuel : Nat) (s : State) : ∃ l, Async.consRun fuel s = run s l := by
   induction fuel generalizing s with
